@@ -51,6 +51,7 @@ type collDef struct {
 	started  bool
 	info     *pb.CollectionInfo
 	tgtVChan []string
+	seek     []*msgpb.MsgPosition
 }
 
 type msgDef struct {
@@ -107,6 +108,7 @@ type world struct {
 	mu      sync.Mutex
 	out     []*outPack
 	events  []*api.ReplicateAPIEvent
+	eventSeq []int
 	outCnt  atomic.Int64
 	chans   map[string]bool
 	colls   []*collDef
@@ -185,6 +187,7 @@ func newWorld(o worldOpts) *world {
 				w.mu.Lock()
 				w.events = append(w.events, ev)
 				w.clock++
+				w.eventSeq = append(w.eventSeq, w.clock)
 				h := w.onEvent
 				w.mu.Unlock()
 				w.outCnt.Add(1)
@@ -332,27 +335,24 @@ func toP(v string) string {
 func (w *world) taskCtx() context.Context { return util.GetCtxWithTaskID(w.ctx, w.taskID) }
 
 func (w *world) start(c *collDef) error {
-	err := w.mgr.StartReadCollection(w.taskCtx(), &model.DatabaseInfo{Name: c.db}, c.info, nil, nil)
+	err := w.mgr.StartReadCollection(w.taskCtx(), &model.DatabaseInfo{Name: c.db}, c.info, c.seek, nil)
 	c.started = err == nil
 	return err
 }
 
-// waitRegistered waits (by quiescence, not by time) until the stream's vchannel is registered at the fake dispatcher.
+// waitRegistered waits (by quiescence, not by time) until the stream's vchannel has been registered at the fake
+// dispatcher at least once; false means the code under test went quiescent without ever registering it.
 func (w *world) waitRegistered(st *streamDef, cap time.Duration) bool {
 	deadline := time.Now().Add(cap)
 	for time.Now().Before(deadline) {
-		if w.disp.Registered(st.srcV) {
+		if w.disp.RegisterCount(st.srcV) > 0 {
 			return true
 		}
-		if b, ok := w.quiesce(50 * time.Millisecond); ok && b == "" && !w.disp.Registered(st.srcV) {
-			// quiescent and still not registered: it never will be
-			if w.disp.Registered(st.srcV) {
-				return true
-			}
-			return false
+		if _, ok := w.quiesce(50 * time.Millisecond); ok {
+			return w.disp.RegisterCount(st.srcV) > 0
 		}
 	}
-	return w.disp.Registered(st.srcV)
+	return w.disp.RegisterCount(st.srcV) > 0
 }
 
 func ts(ms uint64, logical uint64) uint64 { return tsoutil.ComposeTS(int64(ms), int64(logical)) }
@@ -439,10 +439,11 @@ func (w *world) feedNext(st *streamDef) bool {
 		return false
 	}
 	p := st.script[st.next]
+	seq := w.tick() // logical time of the hand-over attempt (before the consumer can react to it)
 	ok := w.disp.Feed(w.ctx, st.srcV, p.build())
 	if ok {
 		st.next++
-		p.fedSeq = w.tick()
+		p.fedSeq = seq
 	}
 	return ok
 }
